@@ -145,6 +145,17 @@ def blockStep (s : List Name × List Note) : Op → List Name × List Note
 def blockRun (s : List Name × List Note) (ops : List Op) : List Name × List Note :=
   ops.foldl blockStep s
 
+/-- `font.layers[L].keys()` (empty when there is no such layer) -/
+def layerGlyphs (f : Font) (L : String) : List Name := ((AL.get? f.layers L).map (·.glyphs)).getD []
+
+/-- a block of operations run inside `layer.holdNotifications()` … `layer.releaseHeldNotifications()` -/
+def heldRun (f : Font) (L : String) (block : List Op) : Font :=
+  run f ([.holdLayer L] ++ block ++ [.releaseLayer L])
+
+/-- … and inside `layer.disableNotifications()` … `layer.enableNotifications()` -/
+def disabledRun (f : Font) (L : String) (block : List Op) : Font :=
+  run f ([.disableLayer L] ++ block ++ [.enableLayer L])
+
 /-- every glyph name mentioned by a held notification of some layer -/
 def queuedNames (f : Font) : List Name :=
   f.layers.flatMap (fun kl => kl.2.queue.flatMap Note.names)
